@@ -6,7 +6,6 @@ from . import props as P
 from . import common as C
 
 NA = {
-    "C03": "~190 stdlib functions over unbounded strings/regex/chrono/serde: none of their internals is within Verus' (str, iterators) or CBMC's (String, regex ICE) reach; scalar ones are covered under C25/C29",
     "C14": "determinism across threads/histories: Kani has no thread support, Verus would need the code rewritten with permission types; cross-run equality is a hyper-property, not a per-call contract",
     "C20": "path text round-trip: renderer uses a regex, parsers are a &str state machine and a LALRPOP grammar; Verus rejects str slicing, Kani ICEs on regex",
     "C21": "JSON round-trip is serde_json's serializer/parser (external crate, float printing); no contract on vrl code expresses it",
